@@ -98,12 +98,19 @@ type Exec struct {
 	pointFired int
 	inPoint    bool
 	racePoints []int // per goroutine (1..Gs): statement points reached
+	racePointIDs [][]int32
+	racePointSteps [][]int32
+	recordPoints bool
+	pointIDs     []int32
 }
 
 // onPoint is called before every statement of the instrumented library.
 func (e *Exec) onPoint(id int) {
 	n := e.pointN
 	e.pointN++
+	if e.recordPoints {
+		e.pointIDs = append(e.pointIDs, int32(id))
+	}
 	if e.inPoint || e.pointActs == nil {
 		return
 	}
